@@ -143,6 +143,10 @@ fn index_list<Data: GarnishData>(
 ) -> Result<Option<Data::Size>, RuntimeError<Data::Error>> {
     if index < Data::Number::zero() {
         Ok(None)
+    } else if index >= <Data as GarnishData>::DataFactory::size_to_number(this.get_list_len(list.clone())?) {
+        // past the end, same result as an item a data implementation reports as absent
+        let index = this.add_unit()?;
+        Ok(Some(index))
     } else {
         match this.get_list_item(list, index)? {
             Some(addr) => Ok(Some(addr)),
